@@ -258,6 +258,9 @@ void h_rg_transmit(void)
   WITNESS("transmit_enabled");
   if (out_slots <= TRANSM_THRESH) WITNESS("transmit_on_reserved_slot");
   unsigned before = out_slots;
+  /* reservation that keeps the pipeline live: with only the reserved slots left, a block may be transmitted
+     only if it is the one the writer is waiting for (otherwise out-of-order blocks could take every slot) */
+  PROP(before > 2 || pos_eq(peek(trans_q)->pos, order), "the last two output slots are given only to the block at the current stream position (C11)");
   g_transmit++;                          /* ghost: this task is now in flight (it took one slot and keeps the block's work unit) */
   do_transmit();
   g_transmit--;
